@@ -99,6 +99,11 @@ class Ctx:
 
     def advisory(self, text):
         self.advisories.append(text)
+        # an instance the rule could not decide on this tree (it is counted as a
+        # trivial obligation, never as a violation): visible in the evidence so
+        # that a rule cannot become vacuous unnoticed
+        if text.rstrip().endswith("not decided"):
+            self.stats["undecided_instances"] = self.stats.get("undecided_instances", 0) + 1
 
     def assume(self, text):
         if text not in self.assumptions:
@@ -136,6 +141,7 @@ def finish(ctx, explanation, technique):
                 f"rule {rid} matched {r['instances']} instance(s), fewer than "
                 f"the {r['floor']} confirmed on the pinned tree: the anchor "
                 f"moved or vanished ({r['text']})")
+    ctx.stats.setdefault("undecided_instances", 0)
     known = load_known(ctx.prop)
     known_keys = {e["key"]: e for e in known}
     new, listed = [], []
